@@ -87,7 +87,7 @@ def run_case(spec):
     d = int(rng.integers(2, 9))
     if kind in ('NeuralBound', 'NautilusBound'):
         d = min(d, 6)
-    obs = dict(pool_bounds=0, members_max=0, bounds_with_more_than_10_members=0, lockstep_calls=0, contains_probes=0, sample_points_compared=0, roundtrips=0, update_roundtrips=0,
+    obs = dict(non_default_activations=0, pool_bounds=0, members_max=0, bounds_with_more_than_10_members=0, lockstep_calls=0, contains_probes=0, sample_points_compared=0, roundtrips=0, update_roundtrips=0,
                cache_nonempty_at_write=0, refills_forced=0, history_ops=0)
     viols = []
     history = []
@@ -119,6 +119,11 @@ def run_case(spec):
                 if spec['i'] % 3 == 0 and opts.get('split_threshold') == 1:
                     opts['log_v_target'] -= 8.0          # forces the outer union to split as far as it can
                     opts['n_points_min'] = d + 1
+            if kind in ('NeuralBound', 'NautilusBound') and opts.get('n_networks'):
+                # user-chosen network hyper-parameters are part of the bound's behaviour and have to survive the file
+                act = ['relu', 'tanh', 'logistic', 'relu'][spec['i'] % 4]
+                opts['nn_kwargs'] = {'hidden_layer_sizes': [(16, 8), (12,), (8, 8, 4)][spec['i'] % 3], 'activation': act}
+                obs['non_default_activations'] = int(act != 'relu')
             brng = np.random.default_rng(int(rng.integers(2 ** 31)))
             b, cons = boundgen.build(kind, prob, opts, brng)
             can_sample = kind != 'NeuralBound'
